@@ -29,6 +29,9 @@ EXTRA = {  # additional checks that are expected to see a change, besides the pr
     "C01-8b": ["C04"], "C02-8a": ["C09"], "C02-8b": ["C06"], "C03-8a": ["C20"], "C03-8b": ["C20"], "C04-8a": ["C05"], "C04-8b": ["C07"],
     "C05-8a": ["C12"], "C09-8b": ["C17"], "C10-8b": ["C04"], "C11-8a": ["C03", "C20"], "C11-8b": ["C05"], "C13-8a": ["C12"], "C14-8a": ["C12"],
     "C16-8b": ["C12"],
+    # round 9 (Go-language slips inside refactorings)
+    "C01-9a": ["C07"], "C01-9b": ["C19"], "C02-9b": ["C13"], "C03-9a": ["C01"], "C03-9b": ["C20"], "C04-9a": ["C06", "C07"], "C04-9b": ["C05"],
+    "C05-9b": ["C04"], "C09-9b": ["C13"], "C10-9b": ["C13", "C14"], "C11-9b": ["C05"], "C12-9a": ["C13"], "C16-9a": ["C12"], "C16-9b": ["C12"],
     # seen since the accounting lemma runs with timestamps of the longest encoding (round 7)
     "C16-6a": ["C12"],
     "C03-2b": ["C09"], "C05-2b": ["C09"], "C10-2a": ["C11", "C09"], "C05-2a": ["C04"], "C06-2b": ["C04"], "C01-2b": ["C07"],
